@@ -412,4 +412,271 @@ theorem rotl_repr (h : Heap) (c : Cell) (par i : Nat) (k v : Int) (hh : Nat) (s 
       grind
     · intro hcr; simp only [frt, hcr, if_false]
 
+theorem repr_node_iff (h : Heap) (p par i : Nat) (k v : Int) (hh : Nat) (s : Int) (l r : Tree) :
+    Repr h p par (node i k v hh s l r) ↔ (p = i + 1 ∧ h.key p = k ∧ h.value p = v ∧ h.parent p = par ∧ h.height p = hh ∧
+      h.slope p = s ∧ Repr h (h.left p) p l ∧ Repr h (h.right p) p r) := Iff.rfl
+
+theorem frame_comp {h h1 h2 : Heap} {c : Cell} {t t' l : Tree} {P : Nat} (side : Cell)
+    (hside : side = .left P ∨ side = .right P)
+    (f1 : Frame h h1 side l) (f2 : Frame h1 h2 c t')
+    (hl : ∀ j, Mem j l → Mem j t) (ht' : ∀ j, Mem j t' → Mem j t) (hP : ∃ i, Mem i t ∧ P = i + 1) :
+    Frame h h2 c t := by
+  obtain ⟨i, hi, eP⟩ := hP
+  have o1 : ∀ q, (∀ j, Mem j t → q ≠ j + 1) → (∀ j, Mem j l → q ≠ j + 1) := fun q hq j hj => hq j (hl j hj)
+  have o2 : ∀ q, (∀ j, Mem j t → q ≠ j + 1) → (∀ j, Mem j t' → q ≠ j + 1) := fun q hq j hj => hq j (ht' j hj)
+  refine ⟨by rw [f2.key, f1.key], by rw [f2.value, f1.value], ?_, ?_, ?_, ?_, ?_, ?_⟩
+  · intro q hq; rw [f2.parent q (o2 q hq), f1.parent q (o1 q hq)]
+  · intro q hq; rw [f2.height q (o2 q hq), f1.height q (o1 q hq)]
+  · intro q hq; rw [f2.slope q (o2 q hq), f1.slope q (o1 q hq)]
+  · intro q hq hc; rw [f2.left q (o2 q hq) hc, f1.left q (o1 q hq)]
+    have := hq i hi
+    rcases hside with e | e <;> subst e <;> simp <;> omega
+  · intro q hq hc; rw [f2.right q (o2 q hq) hc, f1.right q (o1 q hq)]
+    have := hq i hi
+    rcases hside with e | e <;> subst e <;> simp <;> omega
+  · intro hc; rw [f2.root hc, f1.root]
+    rcases hside with e | e <;> subst e <;> simp
+
+theorem shiftr_repr (h : Heap) (c : Cell) (par i : Nat) (k v : Int) (hh : Nat) (s : Int) (li : Nat) (lk lv : Int) (lh : Nat) (ls : Int)
+    (ll lr r : Tree) (hc : CellAt c par)
+    (hpar : ∀ j, Mem j (node i k v hh s (node li lk lv lh ls ll lr) r) → par ≠ j + 1)
+    (hd : Distinct (node i k v hh s (node li lk lv lh ls ll lr) r))
+    (hr : Repr h (h.get c) par (node i k v hh s (node li lk lv lh ls ll lr) r))
+    (hok : ls = -1 → lr ≠ nil) :
+    Repr (Map.shiftr h c) ((Map.shiftr h c).get c) par (Tree.shiftr (node i k v hh s (node li lk lv lh ls ll lr) r)) ∧
+    Frame h (Map.shiftr h c) c (node i k v hh s (node li lk lv lh ls ll lr) r) := by
+  have hr0 := hr
+  rw [repr_node_iff] at hr
+  obtain ⟨eP, kP, vP, pP, hP, sP, rL, rR⟩ := hr
+  have rL0 := rL
+  rw [repr_node_iff] at rL
+  obtain ⟨eQ, kQ, vQ, pQ, hQ, sQ, rLL, rLR⟩ := rL
+  unfold Map.shiftr
+  simp only [Tree.shiftr, Tree.slope, sQ]
+  by_cases hls : ls = -1
+  · simp only [hls, if_true]
+    cases lr with
+    | nil => exact absurd rfl (hok hls)
+    | node lri lrk lrv lrh lrs lrl lrr =>
+      generalize hPd : h.get c = P at *
+      simp only [Distinct, Mem] at hd hpar
+      have hP0 : P ≠ 0 := by omega
+      have hPpar : P ≠ par := by have := hpar i (by grind); omega
+      obtain ⟨q1, q2⟩ := rotl_repr h (Cell.left P) P li lk lv lh ls lri lrk lrv lrh lrs lrr lrl ll ⟨rfl, hP0⟩
+        (by simp only [Mem]; intro j hj; grind) (by simp only [Distinct, Mem]; grind) rL0
+      generalize Map.rotl h (Cell.left P) = h1 at q1 q2
+      simp only [Heap.get] at q1
+      have hg1 : h1.get c = P := by
+        rw [← hPd]
+        cases c with
+        | root => exact q2.root (by simp)
+        | left p =>
+          simp only [CellAt] at hc
+          refine q2.left p ?_ ?_
+          · simp only [Mem]; intro j hj; have := hpar j (by grind); omega
+          · simp <;> omega
+        | right p =>
+          simp only [CellAt] at hc
+          refine q2.right p ?_ ?_
+          · simp only [Mem]; intro j hj; have := hpar j (by grind); omega
+          · simp <;> omega
+      have outP : ∀ j, Mem j (node li lk lv lh ls ll (node lri lrk lrv lrh lrs lrl lrr)) → P ≠ j + 1 := by
+        simp only [Mem]; intro j hj; grind
+      have hr1 : Repr h1 (h1.get c) par (node i k v hh s (Tree.rotl (node li lk lv lh ls ll (node lri lrk lrv lrh lrs lrl lrr))) r) := by
+        rw [hg1]
+        simp only [Repr]
+        refine ⟨eP, by rw [q2.key]; exact kP, by rw [q2.value]; exact vP, by rw [q2.parent P outP]; exact pP,
+          by rw [q2.height P outP]; exact hP, by rw [q2.slope P outP]; exact sP, q1, ?_⟩
+        rw [q2.right P outP (by simp)]
+        refine repr_frame rR ?_ ?_
+        · intro j hj
+          have o : ∀ j', Mem j' (node li lk lv lh ls ll (node lri lrk lrv lrh lrs lrl lrr)) → j + 1 ≠ j' + 1 := by
+            simp only [Mem]; intro j' hj'; grind
+          have n1 : j + 1 ≠ P := by grind
+          refine ⟨by rw [q2.key], by rw [q2.value], q2.left _ o (by simp <;> omega), q2.right _ o (by simp <;> omega), q2.height _ o, q2.slope _ o⟩
+        · intro j hj
+          refine q2.parent _ ?_
+          simp only [Mem]; intro j' hj'; grind
+      simp only [Tree.rotl, Tree.upd] at hr1 ⊢
+      obtain ⟨w1, w2⟩ := rotr_repr h1 c par i k v hh s lri lrk lrv _ _ _ lrr r hc
+        (by simp only [Mem]; intro j hj; apply hpar; grind) (by simp only [Distinct, Mem]; grind) hr1
+      refine ⟨w1, ?_⟩
+      refine frame_comp (Cell.left P) (Or.inl rfl) q2 w2 ?_ ?_ ⟨i, by simp [Mem], eP⟩
+      · simp only [Mem]; intro j hj; grind
+      · simp only [Mem]; intro j hj; grind
+  · simp only [hls, if_false]
+    exact rotr_repr h c par i k v hh s li lk lv lh ls ll lr r hc hpar hd hr0
+theorem shiftl_repr (h : Heap) (c : Cell) (par i : Nat) (k v : Int) (hh : Nat) (s : Int) (li : Nat) (lk lv : Int) (lh : Nat) (ls : Int)
+    (ll lr r : Tree) (hc : CellAt c par)
+    (hpar : ∀ j, Mem j (node i k v hh s r (node li lk lv lh ls lr ll)) → par ≠ j + 1)
+    (hd : Distinct (node i k v hh s r (node li lk lv lh ls lr ll)))
+    (hr : Repr h (h.get c) par (node i k v hh s r (node li lk lv lh ls lr ll)))
+    (hok : ls = 1 → lr ≠ nil) :
+    Repr (Map.shiftl h c) ((Map.shiftl h c).get c) par (Tree.shiftl (node i k v hh s r (node li lk lv lh ls lr ll))) ∧
+    Frame h (Map.shiftl h c) c (node i k v hh s r (node li lk lv lh ls lr ll)) := by
+  have hr0 := hr
+  rw [repr_node_iff] at hr
+  obtain ⟨eP, kP, vP, pP, hP, sP, rR, rL⟩ := hr
+  have rL0 := rL
+  rw [repr_node_iff] at rL
+  obtain ⟨eQ, kQ, vQ, pQ, hQ, sQ, rLR, rLL⟩ := rL
+  unfold Map.shiftl
+  simp only [Tree.shiftl, Tree.slope, sQ]
+  by_cases hls : ls = 1
+  · simp only [hls, if_true]
+    cases lr with
+    | nil => exact absurd rfl (hok hls)
+    | node lri lrk lrv lrh lrs lrl lrr =>
+      generalize hPd : h.get c = P at *
+      simp only [Distinct, Mem] at hd hpar
+      have hP0 : P ≠ 0 := by omega
+      have hPpar : P ≠ par := by have := hpar i (by grind); omega
+      obtain ⟨q1, q2⟩ := rotr_repr h (Cell.right P) P li lk lv lh ls lri lrk lrv lrh lrs lrl lrr ll ⟨rfl, hP0⟩
+        (by simp only [Mem]; intro j hj; grind) (by simp only [Distinct, Mem]; grind) rL0
+      generalize Map.rotr h (Cell.right P) = h1 at q1 q2
+      simp only [Heap.get] at q1
+      have hg1 : h1.get c = P := by
+        rw [← hPd]
+        cases c with
+        | root => exact q2.root (by simp)
+        | left p =>
+          simp only [CellAt] at hc
+          refine q2.left p ?_ ?_
+          · simp only [Mem]; intro j hj; have := hpar j (by grind); omega
+          · simp <;> omega
+        | right p =>
+          simp only [CellAt] at hc
+          refine q2.right p ?_ ?_
+          · simp only [Mem]; intro j hj; have := hpar j (by grind); omega
+          · simp <;> omega
+      have outP : ∀ j, Mem j (node li lk lv lh ls (node lri lrk lrv lrh lrs lrl lrr) ll) → P ≠ j + 1 := by
+        simp only [Mem]; intro j hj; grind
+      have hr1 : Repr h1 (h1.get c) par (node i k v hh s r (Tree.rotr (node li lk lv lh ls (node lri lrk lrv lrh lrs lrl lrr) ll))) := by
+        rw [hg1]
+        simp only [Repr]
+        refine ⟨eP, by rw [q2.key]; exact kP, by rw [q2.value]; exact vP, by rw [q2.parent P outP]; exact pP,
+          by rw [q2.height P outP]; exact hP, by rw [q2.slope P outP]; exact sP, ?_, q1⟩
+        rw [q2.left P outP (by simp)]
+        refine repr_frame rR ?_ ?_
+        · intro j hj
+          have o : ∀ j', Mem j' (node li lk lv lh ls (node lri lrk lrv lrh lrs lrl lrr) ll) → j + 1 ≠ j' + 1 := by
+            simp only [Mem]; intro j' hj'; grind
+          have n1 : j + 1 ≠ P := by grind
+          refine ⟨by rw [q2.key], by rw [q2.value], q2.left _ o (by simp <;> omega), q2.right _ o (by simp <;> omega), q2.height _ o, q2.slope _ o⟩
+        · intro j hj
+          refine q2.parent _ ?_
+          simp only [Mem]; intro j' hj'; grind
+      simp only [Tree.rotr, Tree.upd] at hr1 ⊢
+      obtain ⟨w1, w2⟩ := rotl_repr h1 c par i k v hh s lri lrk lrv _ _ _ lrl r hc
+        (by simp only [Mem]; intro j hj; apply hpar; grind) (by simp only [Distinct, Mem]; grind) hr1
+      refine ⟨w1, ?_⟩
+      refine frame_comp (Cell.right P) (Or.inr rfl) q2 w2 ?_ ?_ ⟨i, by simp [Mem], eP⟩
+      · simp only [Mem]; intro j hj; grind
+      · simp only [Mem]; intro j hj; grind
+  · simp only [hls, if_false]
+    exact rotl_repr h c par i k v hh s li lk lv lh ls ll lr r hc hpar hd hr0
+
+
+/-- what `rebal` needs of the stored slope fields to dereference only items that exist: a left-heavy item has a
+    left child, and if that child leans right it has a right child (and mirrored) -/
+def RebalOk : Tree → Prop
+  | .nil => False
+  | .node _ _ _ _ s l r =>
+    (s > 1 → ∃ li lk lv lh ls ll lr, l = .node li lk lv lh ls ll lr ∧ (ls = -1 → lr ≠ .nil)) ∧
+    (s < -1 → ∃ ri rk rv rh rs rl rr, r = .node ri rk rv rh rs rl rr ∧ (rs = 1 → rl ≠ .nil))
+
+theorem frame_refl (h : Heap) (c : Cell) (t : Tree) : Frame h h c t :=
+  ⟨rfl, rfl, fun _ _ => rfl, fun _ _ => rfl, fun _ _ => rfl, fun _ _ _ => rfl, fun _ _ _ => rfl, fun _ => rfl⟩
+
+theorem rebal_repr (h : Heap) (c : Cell) (par : Nat) (t : Tree) (hc : CellAt c par)
+    (hcell : c = .right par → h.left par ≠ h.get c)
+    (hpar : ∀ j, Mem j t → par ≠ j + 1) (hd : Distinct t) (hr : Repr h (h.get c) par t) (hok : RebalOk t) :
+    Repr (Map.rebal h (h.get c)).1 (Map.rebal h (h.get c)).2 par (Tree.rebal t) ∧
+    (Map.rebal h (h.get c)).2 = (Map.rebal h (h.get c)).1.get c ∧
+    Frame h (Map.rebal h (h.get c)).1 c t := by
+  cases t with
+  | nil => exact absurd hok (by simp [RebalOk])
+  | node i k v hh s l r =>
+    have hr0 := hr
+    rw [repr_node_iff] at hr
+    obtain ⟨eP, kP, vP, pP, hP, sP, rL, rR⟩ := hr
+    have hcellEq : (if h.parent (h.get c) ≠ 0 then (if h.left (h.parent (h.get c)) = h.get c then Cell.left (h.parent (h.get c))
+        else Cell.right (h.parent (h.get c))) else Cell.root) = c := by
+      rw [pP]
+      cases c with
+      | root => simp only [CellAt] at hc; simp [hc]
+      | left p =>
+        simp only [CellAt] at hc
+        obtain ⟨e1, e2⟩ := hc
+        subst e1
+        simp [e2, Heap.get]
+      | right p =>
+        simp only [CellAt] at hc
+        obtain ⟨e1, e2⟩ := hc
+        subst e1
+        have := hcell rfl
+        simp [e2, this]
+    unfold Map.rebal
+    simp only [Tree.rebal, Tree.slope, sP, hcellEq]
+    simp only [RebalOk] at hok
+    by_cases h1 : s > 1
+    · simp only [h1, if_true]
+      obtain ⟨li, lk, lv, lh, ls, ll, lr, e, hok1⟩ := hok.1 h1
+      subst e
+      obtain ⟨a, b⟩ := shiftr_repr h c par i k v hh s li lk lv lh ls ll lr r hc hpar hd hr0 hok1
+      exact ⟨a, trivial, b⟩
+    · simp only [h1, if_false]
+      by_cases h2 : s < -1
+      · simp only [h2, if_true]
+        obtain ⟨ri, rk, rv, rh, rs, rl, rr, e, hok2⟩ := hok.2 h2
+        subst e
+        obtain ⟨a, b⟩ := shiftl_repr h c par i k v hh s ri rk rv rh rs rr rl l hc hpar hd hr0 hok2
+        exact ⟨a, trivial, b⟩
+      · simp only [h2, if_false]
+        exact ⟨hr0, trivial, frame_refl _ _ _⟩
+
+/-! ### the MultiMap.hpp copies of the six functions are the Map.hpp ones -/
+
+theorem upd_fields_multi (h : Heap) (p : Nat) :
+    Multi.updateHeightAndSlope h p =
+      { h with height := upd1 h.height p (max (lhOf h p) (rhOf h p) + 1),
+               slope := upd1 h.slope p ((lhOf h p : Int) - (rhOf h p : Int)) } := by
+  unfold Multi.updateHeightAndSlope lhOf rhOf
+  simp only [Heap.setHeight, Heap.setSlope]
+  congr 2
+  grind
+
+theorem multi_upd : Multi.updateHeightAndSlope = Map.updateHeightAndSlope := by
+  funext h p; rw [upd_fields_multi, upd_fields]
+
+theorem multi_rotr : Multi.rotr = Map.rotr := by
+  first
+  | rfl
+  | (funext h c; simp only [Multi.rotr, Map.rotr, multi_upd]; done)
+  | (funext h c; simp only [Multi.rotr, Map.rotr, multi_upd]; grind)
+
+theorem multi_rotl : Multi.rotl = Map.rotl := by
+  first
+  | rfl
+  | (funext h c; simp only [Multi.rotl, Map.rotl, multi_upd]; done)
+  | (funext h c; simp only [Multi.rotl, Map.rotl, multi_upd]; grind)
+
+theorem multi_shiftr : Multi.shiftr = Map.shiftr := by
+  first
+  | rfl
+  | (funext h c; simp only [Multi.shiftr, Map.shiftr, multi_rotr, multi_rotl]; done)
+  | (funext h c; simp only [Multi.shiftr, Map.shiftr, multi_rotr, multi_rotl]; grind)
+
+theorem multi_shiftl : Multi.shiftl = Map.shiftl := by
+  first
+  | rfl
+  | (funext h c; simp only [Multi.shiftl, Map.shiftl, multi_rotr, multi_rotl]; done)
+  | (funext h c; simp only [Multi.shiftl, Map.shiftl, multi_rotr, multi_rotl]; grind)
+
+theorem multi_rebal : Multi.rebal = Map.rebal := by
+  first
+  | rfl
+  | (funext h p; simp only [Multi.rebal, Map.rebal, multi_shiftr, multi_shiftl]; done)
+  | (funext h p; simp only [Multi.rebal, Map.rebal, multi_shiftr, multi_shiftl]; grind)
+
 end Nstd.Avl
